@@ -28,21 +28,102 @@ EXPLANATION = (
 
 
 def _api_records(ctx):
-    """(method, ctor call, name literal, arg list) for every simple record
-    constructed in a public method."""
+    """(method, call, name literal, arg list) for every simple record
+    constructed in a public method - directly, or by a private builder helper
+    the method hands the name and the arguments to (then ``call`` is the
+    method's call of the helper and name / list are expressed in the
+    method's terms)."""
     R = ctx.R
+    prog = ctx.prog
     out = []
-    for F in R.public_instance_methods:
-        for call in ctx.prog.calls_in(F):
-            for g in ctx.prog.resolve_call(call, F):
+
+    def simple_ctor_calls(F):
+        for call in prog.calls_in(F):
+            for g in prog.resolve_call(call, F):
                 if isinstance(g, Func) and g.is_ctor_call and \
                         g.cls_for_ctor in R.record_classes and \
                         'suboperations' not in R.record_fields[
                             g.cls_for_ctor]:
-                    nm = call.args[0] if call.args else None
-                    lst = call.args[1] if len(call.args) > 1 else None
-                    out.append((F, call, nm, lst))
+                    b = prog.bind_args(call, g)
+                    init = prog.lookup_method(g.cls_for_ctor, '__init__')
+                    ps = init.params if init is not None else []
+                    nm = b.get(ps[0]) if ps else None
+                    lst = b.get(ps[1]) if len(ps) > 1 else None
+                    yield call, nm, lst
+    for F in R.public_instance_methods:
+        for call, nm, lst in simple_ctor_calls(F):
+            out.append((F, call, nm, lst))
+    for Hf in prog.funcs.values():
+        if Hf.cls != R.builder or Hf.is_public or not Hf.has_self:
+            continue
+        for call, nm, lst in simple_ctor_calls(Hf):
+            cn = ctx.H.node_of(Hf, call)[0]
+            nm_s = ctx.H.subst(nm, Hf, cn) if nm is not None else None
+            lst_s = ctx.H.subst(lst, Hf, cn) if lst is not None else None
+            if not (isinstance(nm_s, ast.Constant) or (
+                    isinstance(nm_s, ast.Name) and nm_s.id in Hf.params)):
+                continue          # not a per-query helper
+            for F, c2 in prog.callers().get(Hf.qualname, []):
+                if F not in R.public_instance_methods:
+                    continue
+                b = prog.bind_args(c2, Hf)
+                nm2 = nm_s if isinstance(nm_s, ast.Constant) else \
+                    b.get(nm_s.id)
+                elts = _expand_list(lst_s, Hf, b)
+                if elts is None:
+                    raise AnalysisError(
+                        'the argument list built by %s is not a list '
+                        'expression over its parameters' % Hf.qualname)
+                lst2 = ast.List(elts=elts, ctx=ast.Load())
+                ast.copy_location(lst2, c2)
+                out.append((F, c2, nm2, lst2))
     return out
+
+
+def _replace_params(e, binding):
+    class T(ast.NodeTransformer):
+        def visit_Name(self, n):
+            a = binding.get(n.id)
+            if isinstance(a, ast.AST) and isinstance(n.ctx, ast.Load):
+                return a
+            return n
+    import copy
+    return T().visit(copy.deepcopy(e))
+
+
+def _expand_list(e, Hf, binding):
+    """Elements of a list expression over the helper's parameters, in the
+    caller's terms; None when the shape is not a list display / ``+`` /
+    ``list(*args)`` combination."""
+    va = Hf.vararg
+
+    def var_items(x):
+        if isinstance(x, ast.Name) and va and x.id == va:
+            return list(binding.get('*' + va, []))
+        return None
+    if isinstance(e, (ast.List, ast.Tuple)):
+        out = []
+        for x in e.elts:
+            if isinstance(x, ast.Starred):
+                vi = var_items(x.value)
+                if vi is None:
+                    return None
+                out.extend(vi)
+            else:
+                out.append(_replace_params(x, binding))
+        return out
+    if isinstance(e, ast.BinOp) and isinstance(e.op, ast.Add):
+        l = _expand_list(e.left, Hf, binding)
+        r = _expand_list(e.right, Hf, binding)
+        return None if l is None or r is None else l + r
+    if isinstance(e, ast.Call) and isinstance(e.func, ast.Name) and \
+            e.func.id in ('list', 'tuple') and len(e.args) == 1:
+        vi = var_items(e.args[0])
+        if vi is not None:
+            return vi
+        return _expand_list(e.args[0], Hf, binding)
+    vi = var_items(e)
+    return vi
 
 
 def r1_1(ctx, rc):
